@@ -9,21 +9,40 @@ namespace Derive
 
 def boolLike (bs : List Nat) : Bool := bs.all (· < 2)
 
+namespace Ty
+def u8 : FTy := { size := 1, align := 1, a1 := true }
+def bool : FTy := { size := 1, align := 1, a1 := true, pod := false, valid := boolLike }
+def u8x3 : FTy := { size := 3, align := 1, a1 := true }
+def pubkey : FTy := { size := 32, align := 1, a1 := true }
+def unit : FTy := { size := 0, align := 1, a1 := true }
+def u16 : FTy := { size := 2, align := 2, a1 := false }
+def u32 : FTy := { size := 4, align := 4, a1 := false }
+def u64 : FTy := { size := 8, align := 8, a1 := false }
+/-- `PackedValue<u64>` -/
+def pv64 : FTy := { size := 8, align := 1, a1 := true }
+/-- `#[repr(C, packed)] struct { a: u16, b: u8 }` with `Align1` (not `Pod`) -/
+def np : FTy := { size := 3, align := 1, a1 := true, pod := false }
+/-- `#[repr(align(2))] struct(u8)`, no marker traits -/
+def na2 : FTy := { size := 2, align := 2, a1 := false, reprAlign := true, zeroable := false,
+                   nouninit := false, checked := false, pod := false }
+/-- `#[repr(u8)] enum { A, B }` -/
+def ne : FTy := { size := 1, align := 1, a1 := true, pod := false, valid := boolLike }
+end Ty
+
 /-- token → concrete field type -/
 def ftyOf : String → Option FTy
-  | "u8" | "i8" => some { size := 1, align := 1, a1 := true }
-  | "bool" => some { size := 1, align := 1, a1 := true, pod := false, valid := boolLike }
-  | "u8x3" => some { size := 3, align := 1, a1 := true }
-  | "pubkey" => some { size := 32, align := 1, a1 := true }
-  | "unit" | "phantom" => some { size := 0, align := 1, a1 := true }
-  | "u16" => some { size := 2, align := 2, a1 := false }
-  | "u32" => some { size := 4, align := 4, a1 := false }
-  | "u64" => some { size := 8, align := 8, a1 := false }
-  | "pv64" => some { size := 8, align := 1, a1 := true }
-  | "np" => some { size := 3, align := 1, a1 := true, pod := false }
-  | "na2" => some { size := 2, align := 2, a1 := false, reprAlign := true, zeroable := false,
-                    nouninit := false, checked := false, pod := false }
-  | "ne" => some { size := 1, align := 1, a1 := true, pod := false, valid := boolLike }
+  | "u8" | "i8" => some Ty.u8
+  | "bool" => some Ty.bool
+  | "u8x3" => some Ty.u8x3
+  | "pubkey" => some Ty.pubkey
+  | "unit" | "phantom" => some Ty.unit
+  | "u16" => some Ty.u16
+  | "u32" => some Ty.u32
+  | "u64" => some Ty.u64
+  | "pv64" => some Ty.pv64
+  | "np" => some Ty.np
+  | "na2" => some Ty.na2
+  | "ne" => some Ty.ne
   | _ => none
 
 def fieldOf (generic : Bool) (s : String) : Option Field :=
@@ -187,8 +206,7 @@ def showBit (b : Bool) : String := if b then "1" else "0"
 def instsFor (mac : Mac) (generic : Bool) : List (String × FTy) :=
   if !generic then [("-", FTy.opaque)]
   else
-    let pick := fun s => (s, (ftyOf s).getD FTy.opaque)
-    if mac = .unsized then [pick "u8", pick "bool"] else [pick "u8", pick "u16"]
+    if mac = .unsized then [("u8", Ty.u8), ("bool", Ty.bool)] else [("u8", Ty.u8), ("u16", Ty.u16)]
 
 def showPad (kind : Kind) (l : Layout) : String :=
   match kind with
@@ -218,26 +236,29 @@ def zcArgsOf : Mac → ZcArgs
   | .zcskip => ⟨false, true⟩
   | _ => ⟨false, false⟩
 
-def answerItem (it : Item) : String :=
-  let d := it.decl
-  let insts := instsFor it.mac d.generic
+/-- Does the module of this item compile? -/
+def acceptItem (it : Item) : Bool :=
   match it.mac with
-  | .align1 =>
-    if acceptAlign1 d then
-      "accept " ++ " ".intercalate (insts.map (fun (lbl, x) => s!"{lbl}[{instLine d x false}]"))
-    else "reject"
-  | .zc | .zcpod | .zcskip =>
-    let a := zcArgsOf it.mac
-    if acceptZeroCopy a d then
-      match zeroCopyItem a d with
-      | some d' => "accept " ++ " ".intercalate (insts.map (fun (lbl, x) => s!"{lbl}[{instLine d' x true}]"))
-      | none => "reject"
-    else "reject"
-  | .unsized =>
-    if acceptUnsized d it.tail (insts.map (·.2)) then
-      if d.fields.isEmpty then "accept " ++ " ".intercalate (insts.map (fun (lbl, _) => s!"{lbl}[nosized]"))
-      else "accept " ++ " ".intercalate (insts.map (fun (lbl, x) => s!"{lbl}[{instLine (sizedPartDecl d) x true}]"))
-    else "reject"
+  | .align1 => acceptAlign1 it.decl
+  | .zc | .zcpod | .zcskip => acceptZeroCopy (zcArgsOf it.mac) it.decl
+  | .unsized => acceptUnsized it.decl it.tail ((instsFor it.mac it.decl.generic).map (·.2))
+
+/-- The type the probe measures: the declaration itself, the item the zero-copy derives see, or
+the generated sized part (`none`: an unsized struct without sized fields). -/
+def probedDecl (it : Item) : Option Decl :=
+  match it.mac with
+  | .align1 => some it.decl
+  | .zc | .zcpod | .zcskip => zeroCopyItem (zcArgsOf it.mac) it.decl
+  | .unsized => if it.decl.fields.isEmpty then none else some (sizedPartDecl it.decl)
+
+def answerItem (it : Item) : String :=
+  if acceptItem it then
+    let insts := instsFor it.mac it.decl.generic
+    match probedDecl it with
+    | some d' =>
+      "accept " ++ " ".intercalate (insts.map (fun (lbl, x) => s!"{lbl}[{instLine d' x (it.mac != .align1)}]"))
+    | none => "accept " ++ " ".intercalate (insts.map (fun (lbl, _) => s!"{lbl}[nosized]"))
+  else "reject"
 
 def typeLine (t : FTy) : String :=
   s!"ty size={t.size} align={t.align} a1={showBit t.a1} zeroable={showBit t.zeroable} nouninit={showBit t.nouninit} checked={showBit t.checked} pod={showBit t.pod}"
@@ -254,5 +275,38 @@ def answer (toks : List String) : String :=
     | some ty => typeLine ty
     | none => "bad-op"
   | _ => "bad-op"
+
+/-! ## the documented forms (the same list as `gen::documented` of the harness) -/
+
+private def cf (ts : List FTy) : List Field := ts.map .conc
+
+/-- (item, documented verdict) -/
+def documentedForms : List (Item × Bool) :=
+  [ -- `#[zero_copy] struct MyStruct { pub field: u64 }`
+    (⟨.zc, ⟨.struct, false, [], cf [Ty.u64], []⟩, []⟩, true),
+    -- `#[derive(Align1)] #[repr(C, packed)] struct SomePackedThing { a: u32, b: u64 }`
+    (⟨.align1, ⟨.struct, false, [[.c, .packed 1]], cf [Ty.u32, Ty.u64], []⟩, []⟩, true),
+    -- `#[derive(Align1)] #[repr(C, packed)] struct CounterAccount { authority: Pubkey }`
+    (⟨.align1, ⟨.struct, false, [[.c, .packed 1]], cf [Ty.pubkey], []⟩, []⟩, true),
+    -- `#[derive(Align1)] struct UnCallable;`
+    (⟨.align1, ⟨.struct, false, [], [], []⟩, []⟩, true),
+    -- `#[derive(Align1)] #[repr(C)] struct ListItemSized<K, V> { key: K, value: V }`
+    (⟨.align1, ⟨.struct, true, [[.c]], [.param, .param], []⟩, []⟩, true),
+    -- `#[derive(Align1)] #[repr(C, packed)] struct PackedValue<T>(pub T);`
+    (⟨.align1, ⟨.tuple, true, [[.c, .packed 1]], [.param], []⟩, []⟩, true),
+    -- `#[derive(Align1)] #[repr(transparent)] struct RemainingBytes([u8]);`
+    (⟨.align1, ⟨.tuple, false, [[.transparent]], cf [Ty.u8x3], []⟩, []⟩, true),
+    -- `#[zero_copy(pod)]` struct
+    (⟨.zcpod, ⟨.struct, false, [], cf [Ty.u64, Ty.u8], []⟩, []⟩, true),
+    -- `#[zero_copy(skip_packed)]` with `Align1` fields
+    (⟨.zcskip, ⟨.struct, false, [], cf [Ty.u8, Ty.bool], []⟩, []⟩, true),
+    -- `#[zero_copy] #[repr(u8)] enum { A, B }`
+    (⟨.zc, ⟨.enum, false, [[.int .u8]], [], [[], []]⟩, []⟩, true),
+    -- doctest "ZST at end": `{ field1: u8, #[unsized_start] remaining: RemainingBytes }`
+    (⟨.unsized, ⟨.struct, false, [], cf [Ty.u8], []⟩, [⟨false⟩]⟩, true),
+    -- doctest "ZST on sized" (compile_fail): `{ field1: (), #[unsized_start] list: List<u8> }`
+    (⟨.unsized, ⟨.struct, false, [], cf [Ty.unit], []⟩, [⟨true⟩]⟩, false),
+    -- doctest "nested ZST" (compile_fail): `{ field1: u8, #[unsized_start] zst_in_middle: ZstAtEnd, list: List<u8> }`
+    (⟨.unsized, ⟨.struct, false, [], cf [Ty.u8], []⟩, [⟨false⟩, ⟨true⟩]⟩, false) ]
 
 end Derive
